@@ -53,7 +53,8 @@ PROPS.update({
                "fsck after every operation and on every recovered crash image.", quick=75),
     "C05": seq("exploration",
                "build-then-delete histories (all size classes, sparse files, holes filled by reads, nested directories, renames over targets, failed and aborted operations with injected allocation failures, large files freed by the background shrinker); at quiescent points bitmap-in-use = allocator-in-use = reachable + held by half-freed inodes; after delete-all free counts return to the post-format values",
-               "conservation at quiescent points and the delete-everything check."),
+               "conservation at quiescent points and the delete-everything check; a tenth of the histories are followed by recovery from every crash point of their disk trace, "
+               "where a file whose background truncation the crash interrupted is removed and must then hold nothing."),
     "C07": seq("fault_enumeration",
                "seeded search over stability mixes (UNSTABLE/DATA_SYNC/FILE_SYNC writes to several files, COMMITs, metadata operations, restarts, unstable option on/off); every crash point of each trace is recovered and must equal a prefix state that includes everything acknowledged as stable (so unstable loss is a suffix only); committed level never weaker than requested; write verifier constant within and different across server instances",
                "then recovery from every crash point; 'stable' is defined by the replies (committed >= DATA_SYNC, successful COMMIT, any later operation that commits with wait). "
